@@ -2,6 +2,7 @@
 (* Conformance of the real configuration builders / classes (C20).  Each case is the spec's input
    (echoed) plus what the real code did:
      raised / stage       exception text and the step that raised ("" if none)
+     c0b                  the configuration built by calling the builders once more with the same argument objects
      c0, n1, n2, ls, nl   the configuration returned by to_sleap_nn_cfg, verify_training_cfg once and
                           twice, OmegaConf.load(OmegaConf.save(n1)) and (has_nl) verify_training_cfg of that,
                           each as [diff |-> path -> value, gone |-> paths] relative to the schema default D.
@@ -58,6 +59,7 @@ BuildClause(c) ==
                 O == ObsCfg(c.c0)
                 ac == AugClause(c, O)
                 vc == ValueClause(c, E, ex.free, O)
+                s0 == Stable("second_call_with_the_same_arguments_differs", c.c0, c.c0b)
                 s1 == Stable("normalisation_changes_value", c.c0, c.n1)
                 s2 == Stable("normalisation_not_idempotent", c.n1, c.n2)
                 s3 == Stable("yaml_round_trip_changes_value", c.n1, c.ls)
@@ -65,6 +67,7 @@ BuildClause(c) ==
                ELSE IF DOMAIN O \ DOMAIN E # {} THEN "option_unexpected/" \o (CHOOSE p \in DOMAIN O \ DOMAIN E : TRUE)
                ELSE IF ac # "ok" THEN ac
                ELSE IF vc # "ok" THEN vc
+               ELSE IF s0 # "ok" THEN s0
                ELSE IF s1 # "ok" THEN s1
                ELSE IF s2 # "ok" THEN s2
                ELSE IF s3 # "ok" THEN s3
